@@ -182,8 +182,8 @@ func (ex *Exec) forceSymLens(st *State, fr *Frame, in ssa.Instruction) bool {
 		*ssa.MakeClosure, *ssa.Send, *ssa.If, *ssa.Jump, *ssa.UnOp, *ssa.FieldAddr, *ssa.Field, *ssa.Defer, *ssa.Go,
 		*ssa.MapUpdate, *ssa.DebugRef, *ssa.Alloc, *ssa.RunDefers, *ssa.Panic, *ssa.TypeAssert, *ssa.ChangeInterface:
 		return false
-	case *ssa.BinOp:
-		return false // slices only compare with nil
+	case *ssa.BinOp, *ssa.IndexAddr:
+		return false // slices only compare with nil; IndexAddr checks the bounds against the symbolic length
 	case *ssa.Call:
 		switch f := x.Call.Value.(type) {
 		case *ssa.Builtin:
@@ -814,6 +814,22 @@ func (ex *Exec) execIndexAddr(st *State, fr *Frame, x *ssa.IndexAddr) {
 		}
 		if b.Kind != SliceNormal {
 			unsup("IndexAddr on blob slice")
+		}
+		if b.SymLen() {
+			// bounds check against the symbolic length; the element itself needs a concrete index
+			tt := ex.tt
+			i64 := idx
+			if idx.W < 64 {
+				i64 = tt.SExt(idx, 64)
+			}
+			if !ex.branch(st, tt.And(tt.Sle(C(64, 0), i64), tt.Slt(i64, b.LenT))) {
+				ex.runtimePanic(st, fmt.Sprintf("index out of range [%s] with length %s (slice)", i64, b.LenT))
+				return
+			}
+			i := int(ex.concretize(st, i64, "index into slice of symbolic length"))
+			ex.set(fr, x, b.elemPtr(i))
+			fr.ip++
+			return
 		}
 		i, sym, ok := ex.indexCheck(st, idx, b.Len, "slice")
 		if !ok {
